@@ -217,6 +217,12 @@ def dispatch : Dispatch := fun _W op args =>
       else pure (ok "false" ++ " !model-spec-mismatch spec=true")
     else if m == c then pure (ok (boolStr m))
     else pure (ok (boolStr c) ++ " #defect=ratio-hash-M-divides-den #mirror=" ++ boolStr m)
+  | "implset", [] =>
+    -- the impl headers / macro invocations the dispatch tables (`numPartialCmpK`, `absCmpK`, the
+    -- harness tables) were transcribed from; the harness recomputes the digest from /repo's sources
+    pure (ok ("integer/num_order.rs:24:7ae6a7d4524d4d33 float/num_order.rs:27:0c1cff48c4d28201 " ++
+      "rational/num_order.rs:29:cde7ad95208ad165 integer/cmp.rs:8:dcc0b2b689fb3c4f " ++
+      "float/cmp.rs:7:5cb7b0ee2a1a2a55 rational/cmp.rs:21:520af41e6927e981 base/sign.rs:9:be167acd1ffa1c5c"))
   | "log2encl", [a] => do
     -- the enclosure hypothesis on the REAL estimator is checked by the harness; required: it holds
     let x ← parseNum a
